@@ -192,6 +192,7 @@ def run(ctx):
     c15.loop_state(ctx, "R14-f")
     alias_setters(ctx, "R14-g")
     derived_widths_capped(ctx, "R14-h")
+    dump_omits_unconditionally(ctx, "R14-i")
 
     E = r.rule("R14-e", "width clamp closure of set_width_heuristics: not set ↦ heuristic value; set ∧ value > max_width ↦ max_width; "
                         "otherwise the user's value")
@@ -337,3 +338,42 @@ def derived_widths_capped(ctx, rid):
                             "the default heuristic width is only scaled up with max_width, never bounded by it: with max_width "
                             "below the default the derived width exceeds max_width", ["%s:%d" % (f.file, s[3])])
     r.floor(rid, n, 8, "fields of the scaled heuristics")
+
+
+def dump_omits_unconditionally(ctx, rid):
+    """R14-i: what --print-config leaves out does not depend on the values being printed"""
+    from common import blocks_dominate
+    p, r = ctx.p, ctx.r
+    r.rule(rid, "PartialConfig::to_toml (the serializer behind --print-config): every field it clears before serialising is cleared "
+                "on *every* path to `toml::to_string` — the set of omitted keys is a constant (internal options and deprecated "
+                "aliases whose value lives under another key), never a function of the configuration.  A key that is dropped "
+                "when some other option has a particular value is an explicitly set option missing from the dump, which then "
+                "re-parses to a different effective configuration")
+    f = p.named("to_toml", within="PartialConfig")
+    if f is None:
+        r.undecidable(rid, "PartialConfig::to_toml not found")
+        return
+    ser = [c for c in f.calls() if c.name.endswith("toml::to_string") or c.name.endswith("to_string_pretty")]
+    if not ser:
+        r.undecidable(rid, "PartialConfig::to_toml: no toml serialisation call found")
+        return
+    n = 0
+    for bb, i, st in f.stmts():
+        if st[0] != "=" or not st[1][1]:
+            continue
+        fl = [e for e in st[1][1] if isinstance(e, list) and e[0] == "f" and e[2] and e[2].endswith("PartialConfig")]
+        if not fl:
+            continue
+        reach = f.reachable(bb)
+        live = [c for c in ser if c.bb in reach]
+        if not live:
+            continue
+        n += 1
+        ok = all(blocks_dominate(f, {bb}, c.bb) for c in live)
+        r.instance(rid, "to_toml clears `%s`" % fl[-1][4], "ok" if ok else "violation", "%s:%d" % (f.file, st[3]),
+                   "on every path" if ok else "only on some paths")
+        if not ok:
+            r.violation(rid, "to_toml omits `%s` from the dump only under a condition" % fl[-1][4],
+                        "the write does not dominate the serialisation call: whether the key is printed depends on the values of "
+                        "the configuration being dumped", ["%s:%d" % (f.file, st[3])])
+    r.floor(rid, n, 3, "fields cleared by PartialConfig::to_toml")
